@@ -111,7 +111,7 @@ def run(ctx):
     # ---- code -> spec: `bumpver test`
     from bumpver import v2version
     jobs = []
-    special = corpus.boundary_dates()
+    special = corpus.boundary_dates() + [d for d in corpus.week53_dates() if d.year <= 2098][:20]          # days on which %W / %U give 53, which the week parts cannot express
     for i in range(ctx.pick(2500, 60000)):
         pat = pats[i % len(pats)]
         date = rng.choice(special) if rng.random() < 0.3 else corpus.random_date(rng, 2001, 2098)
@@ -133,6 +133,12 @@ def run(ctx):
             for tgt in targets(rng, old, g) + [("stripped.0", old[:-2] if old.endswith(".0") else old)]:
                 jobs.append((pat, old, "set", tgt, dt.date(2021, 3, 9)))
             jobs.append((pat, old, "auto", glue.flags(), dt.date(2021, 3, 9)))          # a flag-less bump re-renders the version: it must not be announced if it is not greater
+    # systematic: automatic increments on days whose %W / %U week number is 53 - the week parts cannot express it, so such a bump must be refused, never announced
+    for pat in ("YYYY.0W.INC0", "YYYY.WW", "YYYY.UU", "vYYYY.0U.PATCH", "YYYY.WW[.BUILD]"):
+        for d in [x for x in corpus.week53_dates() if x.year <= 2098][:10]:
+            old = v2version.format_version(glue.make_vinfo(d - dt.timedelta(days=7), major=1, minor=2, patch=3, bid="1001", tag="final", num=0, inc0=3, inc1=1), pat)
+            if old and v2version.is_valid(old, pat):
+                jobs.append((pat, old, "auto", glue.flags(patch="PATCH" in pat), d))
     events = drive.pmap(_test_case, jobs, hooks=False, chunksize=100)
     ctx.count("test_cases", len(events))
 
